@@ -325,9 +325,9 @@ func c19ProcWalker(t *rapid.T) {
 			w = append(w, f.name)
 		}
 	}
-	skips := rapid.SampledFrom([][]string{{".git", "node_modules"}, {"src"}, {"a/b"}, {}, nil, nil}).Draw(t, "skip")
+	skips := rapid.SampledFrom([][]string{{".git", "node_modules"}, {"src"}, {"a/b"}, {}, {}, {}, nil, nil}).Draw(t, "skip")
 	args := []string{"--no-mouse", "--walker=" + strings.Join(w, ",")}
-	if rapid.IntRange(0, 3).Draw(t, "earlierSkip") == 0 {
+	if rapid.IntRange(0, 2).Draw(t, "earlierSkip") == 0 {
 		// an earlier occurrence is overridden by the later one
 		args = append(args, "--walker-skip", rapid.SampledFrom([]string{"a", "src,b", ".h"}).Draw(t, "earlier"))
 		if skips == nil {
